@@ -139,7 +139,23 @@ func (e *Enc) instr(in ssa.Instruction, st *State) {
 		e.mapUpdate(x, st)
 	case *ssa.MakeMap:
 		e.makeMap(x, st)
-	case *ssa.Range, *ssa.Next, *ssa.TypeAssert, *ssa.MakeClosure, *ssa.MakeChan, *ssa.Send, *ssa.Go, *ssa.Defer, *ssa.Select, *ssa.Index:
+	case *ssa.Index:
+		xv := e.term(x.X)
+		i := e.term(x.Index)
+		if isString(x.X.Type()) {
+			e.safety("index", tAnd(tCmp("<=", tInt(0), i), Term{app("<", i.S, app("strlen", xv.S)), sBool}), x.Pos())
+			e.usedUF["strat"] = true
+			e.setVal(x, Term{app("strat", xv.S, i.S), sInt})
+			e.assume(e.reg.rangeFact(x.Type(), e.vals[x].T))
+			return
+		}
+		if at, ok := x.X.Type().Underlying().(*types.Array); ok {
+			e.safety("index", tAnd(tCmp("<=", tInt(0), i), tCmp("<", i, tInt(at.Len()))), x.Pos())
+			e.setVal(x, tSelect(xv, i))
+			return
+		}
+		panic(unsupported{"Index on " + x.X.Type().String()})
+	case *ssa.Range, *ssa.Next, *ssa.TypeAssert, *ssa.MakeClosure, *ssa.MakeChan, *ssa.Send, *ssa.Go, *ssa.Defer, *ssa.Select:
 		e.otherInstr(in, st)
 	default:
 		panic(unsupported{fmt.Sprintf("instruction %T", in)})
@@ -410,6 +426,34 @@ func (e *Enc) sliceOp(x *ssa.Slice, st *State) {
 
 // backEdges asserts invariants / variants on the back edges leaving block b.
 func (e *Enc) backEdges(b *ssa.BasicBlock, st *State) {
+	// exit clauses: checked on every edge leaving a loop (other than through a return)
+	for _, li := range e.loops {
+		if !li.blocks[b] || li.lc == nil || len(li.lc.Exit) == 0 {
+			continue
+		}
+		for _, s := range b.Succs {
+			if li.blocks[s] || !strings.HasSuffix(s.Comment, ".done") {
+				continue // only edges to the statement after the loop (break / loop condition), not error returns
+			}
+			g, live := e.edgeGuard[e.edgeKey(b, s)]
+			if !live {
+				continue
+			}
+			for k, ex := range li.lc.Exit {
+				if ex.HeaderOnly != (b == li.header) {
+					continue
+				}
+				bc := e.blockCtx(b, st, nil)
+				cond, ok := e.tryEvalIter(li, bc, ex.E)
+				if !ok {
+					continue
+				}
+				e.terminal = true
+				e.obligeG(g, "exit", fmt.Sprintf("loop%d#%d %s", li.ord, k+1, ex.Text), ex.Tags, cond, token.NoPos)
+				e.terminal = false
+			}
+		}
+	}
 	for _, s := range b.Succs {
 		if !e.backEdge[e.edgeKey(b, s)] {
 			continue
@@ -453,7 +497,19 @@ func (e *Enc) backEdges(b *ssa.BasicBlock, st *State) {
 			e.obligeG(g, "backedge", fmt.Sprintf("loop%d#%d %s", li.ord, k+1, be.Text), be.Tags, e.evalIter(li, c, be.E), token.NoPos)
 		}
 		for k, it := range li.lc.Iter {
-			e.obligeG(g, "iteration", fmt.Sprintf("loop%d#%d %s", li.ord, k+1, it.Text), it.Tags, e.evalIter(li, c, it.E), token.NoPos)
+			bc := e.blockCtx(b, st, nil)
+			inner := bc.local
+			bc.local = func(n string) (CVal, bool) {
+				if v, ok := c.local(n); ok {
+					return v, true
+				}
+				return inner(n)
+			}
+			cond, ok := e.tryEvalIter(li, bc, it.E)
+			if !ok {
+				continue // a name of the clause is not defined on this path (e.g. a comment line)
+			}
+			e.obligeG(g, "iteration", fmt.Sprintf("loop%d#%d %s", li.ord, k+1, it.Text), it.Tags, cond, token.NoPos)
 		}
 		for k, d := range li.lc.Dec {
 			v1 := c.evalInt(d.E)
@@ -481,6 +537,20 @@ func (e *Enc) evalIter(li *loopInfo, c *Ctx, x Expr) Term {
 	hc := e.loopCtx(li, li.snap, li.phiSnap, nil)
 	x2 := e.substIter(x, hc)
 	return c.evalBool(x2)
+}
+
+// tryEvalIter is evalIter that reports (instead of failing) when an identifier is not defined here.
+func (e *Enc) tryEvalIter(li *loopInfo, c *Ctx, x Expr) (t Term, ok bool) {
+	defer func() {
+		if r := recover(); r != nil {
+			if ee, isE := r.(evalError); isE && strings.HasPrefix(ee.msg, "unknown identifier") {
+				ok = false
+				return
+			}
+			panic(r)
+		}
+	}()
+	return e.evalIter(li, c, x), true
 }
 
 // substIter replaces iter(e) by a let-bound fresh identifier evaluated in the header context.
@@ -543,7 +613,7 @@ func (e *Enc) ret(x *ssa.Return, st *State) {
 			extra["err"] = cv
 		}
 	}
-	c := e.ctx(st, e.init, extra)
+	c := e.blockCtx(x.Block(), st, extra)
 	e.terminal = true
 	defer func() { e.terminal = false }()
 	for k, en := range e.fc.Ens {
